@@ -1,0 +1,229 @@
+//go:build verif
+
+package main
+
+import (
+	"fmt"
+	"mltwist/internal/state"
+	"mltwist/internal/state/memory"
+	"mltwist/pkg/expr"
+	"mltwist/pkg/model"
+	"sort"
+	"strings"
+)
+
+// Register map and state histories (property C18), one history per line.
+//
+//	regmap <n> op1 ... opn          on a fresh state.NewRegMap()
+//	    st <key> <w> E              Store(key, E, w)          answer "-"
+//	    ld <key> <w>                Load(key, w)              answer "some E" / "none"
+//	    len                         Len()                     answer number
+//	  followed by one field "R <k> key1 E1 ... keyk Ek": Values() sorted by key.
+//
+//	state <n> op1 ... opn           on a fresh state.New()
+//	    ap EF                       Apply(EF)                 answer "true" / "false same" / "false changed"
+//	    lr <key> <w>                Regs.Load(key, w)         answer "some E" / "none"
+//	    lm <key> <addr> <w>         Mems.Load(key, addr, w)   answer "some E" / "none"
+//	    mm <key> <addr> <w>         Mems.Missing              answer interval list
+//	    mb <key>                    Mems.Blocks               answer interval list
+//	    dump                        the whole state (see dumpState)
+//	  followed by one field: the dump of the final state.
+//
+//	statemem <key> <mem> <n> op1 ... opn
+//	  the same on &state.State{Regs: NewRegMap(), Mems: MemMap{key: <mem>}} with <mem> as in the
+//	  "layers" operation (the arrangement cmd/mltwist uses: an Overlay of Bytes and Sparse).
+//
+// A refused Apply ("false") is followed by a second dump of the whole state,
+// which is compared with the dump taken just before the call ("same" or
+// "changed"). The answers are joined by " | ". A panicking operation answers
+// "PANIC" and ends the history.
+
+// dumpMem prints the observable content of a memory: its blocks and, for every
+// block, the result of loading it in chunks of at most 255 bytes.
+//
+//	<k> b1 e1 <load>... ... bk ek <load>...       <load> = "some E" / "none"
+func dumpMem(m memory.Memory) string {
+	var sb strings.Builder
+	bl := m.Blocks()
+	fmt.Fprintf(&sb, "%d", bl.Len())
+	for _, i := range bl.Intervals() {
+		fmt.Fprintf(&sb, " %d %d", uint64(i.Begin()), uint64(i.End()))
+		for a := i.Begin(); a < i.End(); {
+			n := i.End() - a
+			if n > 255 {
+				n = 255
+			}
+			ex, ok := m.Load(a, expr.Width(n))
+			if ok {
+				sb.WriteString(" some ")
+				writeExpr(&sb, ex)
+			} else {
+				sb.WriteString(" none")
+			}
+			a += n
+		}
+	}
+	return sb.String()
+}
+
+func dumpRegs(r *state.RegMap) string {
+	vals := r.Values()
+	keys := make([]string, 0, len(vals))
+	for k := range vals {
+		keys = append(keys, string(k))
+	}
+	sort.Strings(keys)
+
+	var sb strings.Builder
+	fmt.Fprintf(&sb, "R %d", len(keys))
+	for _, k := range keys {
+		fmt.Fprintf(&sb, " %s ", k)
+		writeExpr(&sb, vals[expr.Key(k)])
+	}
+	return sb.String()
+}
+
+// dumpState: "R <k> key E ... M <m> key <dumpMem> ...", keys sorted.
+func dumpState(s *state.State) string {
+	keys := make([]string, 0, len(s.Mems))
+	for k := range s.Mems {
+		keys = append(keys, string(k))
+	}
+	sort.Strings(keys)
+
+	var sb strings.Builder
+	sb.WriteString(dumpRegs(s.Regs))
+	fmt.Fprintf(&sb, " M %d", len(keys))
+	for _, k := range keys {
+		fmt.Fprintf(&sb, " %s %s", k, dumpMem(s.Mems[expr.Key(k)]))
+	}
+	return sb.String()
+}
+
+func fmtLoaded(ex expr.Expr, ok bool) string {
+	if !ok {
+		return "none"
+	}
+	return "some " + fmtExpr(ex)
+}
+
+func regmapOp(m *state.RegMap, t *tokens) string {
+	switch op := t.next(); op {
+	case "st":
+		k := t.key()
+		w := t.width()
+		ex := t.expr()
+		return protect(func() string {
+			m.Store(k, ex, w)
+			return "-"
+		})
+	case "ld":
+		k := t.key()
+		w := t.width()
+		return protect(func() string { return fmtLoaded(m.Load(k, w)) })
+	case "len":
+		return protect(func() string { return fmt.Sprintf("%d", m.Len()) })
+	default:
+		panic(parseError("bad regmap op " + op))
+	}
+}
+
+func stateOp(s *state.State, t *tokens) string {
+	switch op := t.next(); op {
+	case "ap":
+		ef := t.effect()
+		return protect(func() string {
+			before := dumpState(s)
+			if s.Apply(ef) {
+				return "true"
+			}
+			if dumpState(s) == before {
+				return "false same"
+			}
+			return "false changed"
+		})
+	case "lr":
+		k := t.key()
+		w := t.width()
+		return protect(func() string { return fmtLoaded(s.Regs.Load(k, w)) })
+	case "lm":
+		k := t.key()
+		a := model.Addr(t.uint())
+		w := t.width()
+		return protect(func() string { return fmtLoaded(s.Mems.Load(k, a, w)) })
+	case "mm":
+		k := t.key()
+		a := model.Addr(t.uint())
+		w := t.width()
+		return protect(func() string { return fmtSparseIntervals(s.Mems.Missing(k, a, w)) })
+	case "mb":
+		k := t.key()
+		return protect(func() string { return fmtSparseIntervals(s.Mems.Blocks(k)) })
+	case "dump":
+		return protect(func() string { return dumpState(s) })
+	default:
+		panic(parseError("bad state op " + op))
+	}
+}
+
+func init() {
+	register("regmap", func(t *tokens) string {
+		n := t.int()
+		m := state.NewRegMap()
+		answers := make([]string, 0, n+1)
+		for i := 0; i < n; i++ {
+			a := regmapOp(m, t)
+			answers = append(answers, a)
+			if a == "PANIC" {
+				t.rest()
+				return strings.Join(answers, " | ")
+			}
+		}
+		answers = append(answers, protect(func() string { return dumpRegs(m) }))
+		return strings.Join(answers, " | ")
+	})
+
+	register("statemem", func(t *tokens) string {
+		key := t.key()
+		var mem memory.Memory
+		failure := ""
+		func() {
+			defer func() {
+				if r := recover(); r != nil {
+					switch v := r.(type) {
+					case parseError:
+						panic(v)
+					case setupFailure:
+						failure = string(v)
+					default:
+						failure = "PANIC"
+					}
+				}
+			}()
+			var bases []memory.Memory
+			mem = parseMem(t, &bases)
+		}()
+		if failure != "" {
+			t.rest()
+			return failure
+		}
+		return runState(t, &state.State{Regs: state.NewRegMap(), Mems: memory.MemMap{key: mem}})
+	})
+
+	register("state", func(t *tokens) string { return runState(t, state.New()) })
+}
+
+func runState(t *tokens, s *state.State) string {
+	n := t.int()
+	answers := make([]string, 0, n+1)
+	for i := 0; i < n; i++ {
+		a := stateOp(s, t)
+		answers = append(answers, a)
+		if a == "PANIC" {
+			t.rest()
+			return strings.Join(answers, " | ")
+		}
+	}
+	answers = append(answers, protect(func() string { return dumpState(s) }))
+	return strings.Join(answers, " | ")
+}
